@@ -600,6 +600,46 @@ theorem C14_full_segment_model_exact (r : Req) (parts : List (List Doc)) (t : MT
   rw [hseg] at hleaves
   exact C14_composite_eviction_invisible_any_schedule r parts t hleaves
 
+/-- **Eviction is invisible on top of ANY terms truncation — no guard.**  For every request tree,
+every partition and every merge schedule the complete segment model (`collectSegFull`: terms cut
+and composite eviction everywhere) has the final result of the cut-only model (`collectSeg`).
+Hence every statement about the cut-only model — the bounds of `C14_terms_error_bound`, the
+exactness for `_key` order, for one data-bearing segment, from the top buckets — holds verbatim
+for the complete model. -/
+theorem C14_full_model_eq_cut_model (r : Req) (parts : List (List Doc)) (t : MTree (Inter M r))
+    (hleaves : t.leaves.Perm (parts.map (collectSegFull (M := M) r))) :
+    finalize r (t.eval (merge r) (empty r)) = finalize r (mergeFruits r (parts.map (collectSeg r))) := by
+  rw [MTree.eval_eq_fold (merge r) (empty r) (merge_assoc r) (merge_comm r) (empty_merge r),
+    foldl_op_perm (merge r) (empty r) (merge_assoc r) (merge_comm r) (empty_merge r) hleaves,
+    C14_mergeFruits_eq_fold]
+  exact full_eq_cut r parts
+
+/-- corollary: the complete model with a `_key`-ordered terms node on top (composites, histograms,
+ranges, filters, metrics below) is exact under truncation for every merge schedule — and all
+hypotheses but the order and the shape of the sub-request are DERIVED from the request defaults of
+the source (`TermsP.ofRequest`: `segment_size ≥ size`, default `min_doc_count = 1`). -/
+theorem C14_terms_key_order_exact_full_model_request_defaults (field : Field) (missing : Option Int)
+    (size segSize : Option Nat) (ord : Order) (ho : ord = .keyAsc ∨ ord = .keyDesc) (sub : Req)
+    (hsub : sub.cutFree = true) (parts : List (List Doc))
+    (t : MTree (Inter M (.terms (TermsP.ofRequest field missing size segSize Option.none (some ord)) sub)))
+    (hleaves : t.leaves.Perm (parts.map (collectSegFull (M := M)
+      (.terms (TermsP.ofRequest field missing size segSize Option.none (some ord)) sub)))) :
+    let r := Req.terms (TermsP.ofRequest field missing size segSize Option.none (some ord)) sub
+    (finalize (M := M) r (t.eval (merge r) (empty r))).1 = (evalAggPV M r parts.flatten).1
+      ∧ (finalize (M := M) r (t.eval (merge r) (empty r))).2.1 = (evalAggPV M r parts.flatten).2.1 := by
+  intro r
+  have hsz := C14_segment_size_ge_size field missing size segSize Option.none (some ord)
+  have hmdc : (TermsP.ofRequest field missing size segSize Option.none (some ord)).minDocCount ≤ 1 := by
+    show Gen.AGG_TERMS_DEFAULT_MIN_DOC_COUNT ≤ 1
+    decide
+  have ho' : (TermsP.ofRequest field missing size segSize Option.none (some ord)).order = .keyAsc
+      ∨ (TermsP.ofRequest field missing size segSize Option.none (some ord)).order = .keyDesc := ho
+  rw [C14_full_model_eq_cut_model r parts t hleaves]
+  rcases ho' with h | h
+  · exact ⟨C14_terms_key_asc_exact_under_truncation _ sub h hsz hmdc hsub parts,
+      C14_terms_key_asc_other_exact_under_truncation _ sub h hsz hmdc hsub parts⟩
+  · exact C14_terms_key_desc_exact_under_truncation _ sub h hsz hmdc hsub parts
+
 /-- the observational core: an evicted fruit behaves like the original one in every merge -/
 theorem C14_evict_observationally_equal (r : Req) (x z : Inter M r) (hx : WS r x) (hz : WS r z) :
     finalize r (merge r (evict r x) z) = finalize r (merge r x z) :=
@@ -832,6 +872,17 @@ example : @Eq (List (Int × Nat × List (Int × Nat × Unit)) × Nat × Nat)
         ([[[(1, [7]), (0, [3])], [(1, [7]), (0, [1])], [(1, [8]), (0, [1])]], [[(1, [8]), (0, [2])], [(1, [9]), (0, [0])]]].map
           (collectSegFull (M := Int) (.terms ⟨1, Option.none, 1, 1, 1, .countDesc⟩ (.composite [⟨0, 9, false⟩] 1 Option.none .none))))))
     ([(7, 2, [(1, 1, ())])], 3, 2) := by decide +kernel
+set_option synthInstance.maxSize 1024 in
+/-- complete model, request `terms(size 1, shard_size 1, order _key asc){composite(size 1)}` built by `TermsP.ofRequest`:
+two cut and evicted segments (keys {7,8} and {7,9}); bucket 7 with 3 documents and its composite page are exact, 2 others -/
+example : @Eq (List (Int × Nat × List (Int × Nat × Unit)) × Nat × Nat)
+    (finalize (M := Int) (.terms (TermsP.ofRequest 1 Option.none (some 1) (some 1) Option.none (some .keyAsc)) (.composite [⟨0, 9, false⟩] 1 Option.none .none))
+      ((MTree.node
+        (.leaf (collectSegFull (M := Int) (.terms (TermsP.ofRequest 1 Option.none (some 1) (some 1) Option.none (some .keyAsc)) (.composite [⟨0, 9, false⟩] 1 Option.none .none))
+          [[(1, [7]), (0, [3])], [(1, [7]), (0, [1])], [(1, [8]), (0, [1])]]))
+        (.leaf (collectSegFull (M := Int) (.terms (TermsP.ofRequest 1 Option.none (some 1) (some 1) Option.none (some .keyAsc)) (.composite [⟨0, 9, false⟩] 1 Option.none .none))
+          [[(1, [7]), (0, [2])], [(1, [9]), (0, [0])]]))).eval (merge _) (empty _)))
+    ([(7, 3, [(1, 1, ())])], 2, 2) := by decide +kernel
 example : (compTrim 1 Option.none (compTrim 2 Option.none (KMap.merge (fun a _ => a) (KMap.single 3 (1, ()))
     (KMap.merge (fun a _ => a) (KMap.single 1 (1, ())) (KMap.single 2 (1, ())))))).entries = [(1, 1, ())] := by decide +kernel
 example : [0, 10, 20].Pairwise (fun a b : Int => a < b) := by decide
